@@ -367,6 +367,76 @@ def strat_dirichlet(tier):
     return s()
 
 
+# ---------------------------------------------- one injector instance, several calls
+def _call_injector(obj, which, data, fcols, ycol, case, a, b):
+    c1 = fcols[case["c1"] % len(fcols)]
+    c2 = fcols[case["c2"] % len(fcols)]
+    if which == "FeatureShift":
+        return obj(data, a, b, c1, 0.5, alpha=0.25)
+    if which == "FeatureSwap":
+        return obj(data, a, b, c1, c2)
+    if which == "LabelSwap":
+        return obj(data, a, b, ycol, cls_value(0, case["ckind"]), cls_value(1, case["ckind"]))
+    if which == "LabelJoin":
+        return obj(data, a, b, ycol, cls_value(0, case["ckind"]), cls_value(1, case["ckind"]), cls_value(2, case["ckind"]))
+    if which == "BrownianNoise":
+        return obj(data, a, b, c1, 1.5, random_state=case["seed"])
+    raise AssertionError(which)
+
+
+def check_reuse(case, ctx):
+    """An injector object that is called several times (other data, other column order / labels / container)
+    must return what a fresh object returns for the same call."""
+    from menelaus import injection as inj
+
+    cls = {"FeatureShift": inj.FeatureShiftInjector, "FeatureSwap": inj.FeatureSwapInjector, "LabelSwap": inj.LabelSwapInjector, "LabelJoin": inj.LabelJoinInjector, "BrownianNoise": inj.BrownianNoiseInjector}[case["which"]]
+    with sut(injector=case["which"]):
+        shared = cls()
+    for k, d in enumerate(case["datasets"]):
+        data, fcols, ycol = build(d)
+        order = d.get("col_order")
+        if order and isinstance(data, pd.DataFrame):
+            cols = list(data.columns)
+            data = data[[cols[i] for i in order if i < len(cols)] + [c for j, c in enumerate(cols) if j not in order]]
+        n = len(d["cls"])
+        a, b = window({"window": d["window"]}, n)
+        sub = dict(case)
+        sub["ckind"] = d["ckind"]
+        with sut(injector=case["which"]):
+            got = _call_injector(shared, case["which"], data, fcols, ycol, sub, a, b)
+            want = _call_injector(cls(), case["which"], data, fcols, ycol, sub, a, b)
+        same_type = type(got) is type(want)
+        same_cols = (not isinstance(want, pd.DataFrame)) or list(got.columns) == list(want.columns)
+        if not (same_type and same_cols and cells_equal(values(got), values(want))):
+            raise Violation(
+                "injector-instance-state",
+                f"{case['which']}: call {k} on a re-used injector object ({d['kind']}, labels {d.get('labels')}, column order {order}) differs from the same call on a fresh object",
+                injector=case["which"],
+            )
+    kinds = {(d["kind"], d.get("labels"), tuple(d.get("col_order") or ())) for d in case["datasets"]}
+    ctx.label(case["which"], f"calls={len(case['datasets'])}")
+    if len(kinds) >= 2:
+        ctx.label("nontrivial")
+
+
+def strat_reuse(tier):
+    @st.composite
+    def s(draw):
+        nf = draw(st.integers(2, 4))
+        dsets = []
+        for _ in range(draw(st.integers(2, 4))):
+            d = draw(inj_case_data())
+            n = len(d["cls"])
+            d["feats"] = [(r + [0.0] * nf)[:nf] for r in d["feats"]]
+            a = draw(st.integers(0, n))
+            d["window"] = [a, draw(st.integers(a, n))]
+            d["col_order"] = draw(st.permutations(list(range(nf + 1)))) if draw(st.booleans()) else None
+            dsets.append(d)
+        return {"which": draw(st.sampled_from(["FeatureShift", "FeatureSwap", "LabelSwap", "LabelJoin", "BrownianNoise"])), "datasets": dsets, "c1": draw(st.integers(0, 3)), "c2": draw(st.integers(0, 3)), "seed": draw(st.integers(0, 10**6))}
+
+    return s()
+
+
 def strat_frequencies(tier):
     @st.composite
     def s(draw):
@@ -410,7 +480,7 @@ PROPERTY = {
         "columns identical; inside the window the documented effect (swap + involution, label swap + involution, join, shift by "
         "shift_factor*(alpha+window mean), +-1/sqrt(steps) walk from x0, resampled rows come from the window; FeatureCover: n per group, each "
         "input row used at most once, traced through a unique id column). Non-trivial = non-empty proper window with >= 2 classes / distinct "
-        "columns; DataFrames carry string labels or integer labels that differ from the positions. dirichlet_dominant_class: alpha dicts in drawn (unsorted) insertion order with one concentration 5000x the others - that class must receive >= 90 % of the resampled window. resampling_frequencies: 30-60 seeded draws per case, classes all present in the window, exact binomial tail test at 1e-10."
+        "columns; DataFrames carry string labels or integer labels that differ from the positions. instance_reuse: one injector object called 2-4 times on different data (other container, labels, column order) must return what a fresh object returns. dirichlet_dominant_class: alpha dicts in drawn (unsorted) insertion order with one concentration 5000x the others - that class must receive >= 90 % of the resampled window. resampling_frequencies: 30-60 seeded draws per case, classes all present in the window, exact binomial tail test at 1e-10."
     ),
     "assumptions": [
         "feature columns are floats (shift / noise on integer-typed arrays would truncate)",
@@ -419,6 +489,8 @@ PROPERTY = {
     ],
     "subchecks": [
         SubCheck("frame_effect", check_frame, strategy=strat_frame, nontrivial=lambda L: "nontrivial" in L, quick=3000, thorough=60000, shards_quick=16, describe=_desc),
+        SubCheck("instance_reuse", check_reuse, strategy=strat_reuse, nontrivial=lambda L: "nontrivial" in L, quick=500, thorough=8000, shards_quick=8,
+                 describe=lambda c: {"which": c["which"], "datasets": [{"kind": d["kind"], "labels": d.get("labels"), "col_order": d.get("col_order"), "rows": len(d["cls"])} for d in c["datasets"]]}),
         SubCheck("dirichlet_dominant_class", check_dirichlet, strategy=strat_dirichlet, nontrivial=lambda L: "unsorted-alpha-keys" in L, quick=250, thorough=4000, shards_quick=8, describe=_desc),
         SubCheck("resampling_frequencies", check_frequencies, strategy=strat_frequencies, nontrivial=lambda L: "frequencies-tested" in L, quick=250, thorough=4000, shards_quick=8, describe=_desc),
     ],
